@@ -146,7 +146,24 @@ def check(code, reg, o, want=("load", "classes", "fields", "keys", "types", "def
             if len(set(names)) != len(names):
                 dup = sorted({n for n in names if names.count(n) > 1})
                 ks = [k for k in kept if label(k) in dup]
-                out.append(("field-collision", f"keys {ks} of {c['name']} give the same field name {dup}"))
+                # which kind: keys that are equal after the property's case / punctuation folding are outside its domain
+                # (D34); a digit-first key against the spelling of its digit is D12; anything else contradicts label_injective
+                import re as _re
+                from unidecode import unidecode as _ud
+                fold = lambda k: _re.sub(r"[\W_]", "", _ud(k) if cu else k).lower()       # noqa: E731
+                groups = {}
+                for k in ks:
+                    groups.setdefault(label(k), []).append(k)
+                kinds = set()
+                for lab_, g_ in groups.items():
+                    if len({fold(k) for k in g_}) == 1:
+                        kinds.add("folded-collision")
+                    elif any(k[:1].isdigit() or (_ud(k)[:1].isdigit() if cu else False) for k in g_):
+                        kinds.add("digit-spelled-collision")
+                    else:
+                        kinds.add("field-collision")
+                kind_ = "field-collision" if "field-collision" in kinds else sorted(kinds)[0]
+                out.append((kind_, f"keys {ks} of {c['name']} give the same field name {dup}"))
             if len(names) != len(kept):
                 out.append(("fields", f"class {c['name']} has {len(names)} fields for {len(kept)} keys"))
     if not any(w in want for w in ("load", "keys", "types", "defaults")):
@@ -157,7 +174,10 @@ def check(code, reg, o, want=("load", "classes", "fields", "keys", "types", "def
     try:
         mod = pipeline.load(code)
     except Exception as e:  # noqa
-        out.append(("field-equals-class-name" if clash_any and isinstance(e, NameError) else "load",
+        # D27: a field named like a nested class of the same body: the name resolves to the wrong object (NameError), or the
+        # class object is taken for the field's default (dataclasses / attrs: "non-default argument follows default argument")
+        d27 = clash_any and (isinstance(e, NameError) or (isinstance(e, (TypeError, ValueError)) and "default" in str(e)))
+        out.append(("field-equals-class-name" if d27 else "load",
                     f"module does not load: {type(e).__name__}: {str(e)[:160]}"))
         return out
     try:
@@ -189,6 +209,11 @@ def check(code, reg, o, want=("load", "classes", "fields", "keys", "types", "def
                 ft = field_table(cls, fw)
             except Exception as e:  # noqa
                 out.append(("load", f"field table of {cls.__name__}: {type(e).__name__}: {str(e)[:120]}"))
+                continue
+            labels_of_model = [label(k) for k, t in m.type.items() if not (fw in ("pydantic", "sqlmodel") and (t is Unknown or t is Null))]
+            if len(set(labels_of_model)) != len(labels_of_model):
+                # two keys of this model collapse onto one field name: reported once as field-collision above; the per-key
+                # comparisons below would only restate it (which key the surviving field belongs to is arbitrary)
                 continue
             for k, t in m.type.items():
                 if fw in ("pydantic", "sqlmodel") and (t is Unknown or t is Null):
@@ -243,11 +268,14 @@ def reserved_tags(reg, o):
                     "ClassType", "convert_strings", "IntString", "FloatString", "BooleanString", "IsoDateString", "IsoTimeString",
                     "IsoDatetimeString", "date", "time", "datetime", "optional"}
     labels = set()
+    converted = {}
     for m in reg.models:
         try:
             cn = prepare_label(m.name, convert_unicode=cu, to_snake_case=False)
         except Exception:  # noqa
             cn = None
+        if cn is not None:
+            converted.setdefault(cn, set()).add(m.name)
         if cn in typing_names:
             tags.add("class-shadows-import")
         for k in m.type:
@@ -260,6 +288,9 @@ def reserved_tags(reg, o):
                     tags.add("non-identifier-key-char")
             except IndexError:
                 tags.add("empty-label")
+    if any(len(v) > 1 for v in converted.values()):
+        # D35: names are de-duplicated by the registry BEFORE they are sanitised; two different names can sanitise to one
+        tags.add("class-names-collapse")
     if labels & typing_names:
         tags.add("field-shadows-import")
     if fw in ("pydantic", "sqlmodel"):
